@@ -554,3 +554,178 @@ Proof.
   - exact (ra_inj _ _ _ _ H).
   - rewrite upd_length by lia. exact (ra_glob _ _ _ _ H).
 Qed.
+
+(* ------------------------------------------------------------------ the invariant of reg_put's body *)
+(* m0 pb0: the memory at entry; block length m0 is the cell of the local i_ln; (bs, t): the text argument *)
+Record inv (m0 : mem) (pb0 : block) (bs : nat) (t : bytes) (m : mem) (pb : block) (lb : list Z) (R : RegDefs.regs) : Prop := mk_inv {
+  iv_rep : regs_at m pb lb R;
+  iv_fr : fr (length m0) m0 pb0 m pb;
+  iv_k0 : exists v, nth_error m (length m0) = Some [v];
+  iv_un : forall k o, (k < 256)%nat -> cellp pb k <> VPtr (length m0) o;
+  iv_arg : str_at m bs t;
+  iv_argun : forall k o, (k < 256)%nat -> cellp pb k <> VPtr bs o
+}.
+
+Lemma regs_at_app m pb lb R x : regs_at m pb lb R -> regs_at (m ++ [x]) pb lb R.
+Proof.
+  intro H. destruct globals_small as (G0 & G1 & G2 & G3 & G4 & G5). pose proof (ra_glob _ _ _ _ H) as Hg.
+  assert (O : forall b, (b < length m)%nat -> nth_error (m ++ [x]) b = nth_error m b) by (intros; apply nth_error_app_old; assumption).
+  constructor.
+  - rewrite O by lia. exact (ra_bufs _ _ _ _ H).
+  - exact (ra_blen _ _ _ _ H).
+  - unfold int_arr_at. rewrite O by lia. exact (ra_ln _ _ _ _ H).
+  - exact (ra_llen _ _ _ _ H).
+  - exact (ra_ints _ _ _ _ H).
+  - unfold str_at. rewrite O by lia. exact (ra_lit _ _ _ _ H).
+  - intros k Hk. pose proof (ra_cell _ _ _ _ H k Hk) as Hr. destruct (R (N.of_nat k)) as [[t l]|]; cbn [reg_cell] in Hr |- *; [|exact Hr].
+    destruct Hr as (b & E & Hh & Hst & Hn & Hf & Hl). exists b. repeat split; try assumption.
+    unfold str_at. rewrite O; [exact Hst|]. apply nth_error_Some. unfold str_at in Hst. congruence.
+  - exact (ra_inj _ _ _ _ H).
+  - rewrite app_length. lia.
+Qed.
+
+Lemma inv_init m0 pb0 lb0 R0 bs t x : regs_at m0 pb0 lb0 R0 -> str_at m0 bs t ->
+  (forall k o, (k < 256)%nat -> cellp pb0 k <> VPtr bs o) -> inv m0 pb0 bs t (m0 ++ [[x]]) pb0 lb0 R0.
+Proof.
+  intros H Hs Hun.
+  assert (Hbs : (bs < length m0)%nat) by (apply nth_error_Some; unfold str_at in Hs; congruence).
+  constructor.
+  - apply regs_at_app. exact H.
+  - constructor.
+    + rewrite app_length. cbn. lia.
+    + intros. left. assumption.
+    + intros k b o Hk E. left. split; [exact E|]. destruct (cell_live m0 pb0 lb0 R0 k b o H Hk E) as (_ & _ & Hb & _).
+      apply nth_error_app_old. exact Hb.
+    + intros b Hb _ _ _ _. apply nth_error_app_old. exact Hb.
+    + intros b Hb N. rewrite app_length in Hb. cbn in Hb. lia.
+  - exists x. apply nth_error_app_new.
+  - intros k o Hk E. destruct (cell_live m0 pb0 lb0 R0 k _ o H Hk E) as (_ & _ & Hb & _). lia.
+  - unfold str_at. rewrite nth_error_app_old by exact Hbs. exact Hs.
+  - exact Hun.
+Qed.
+
+Lemma inv_scratch m0 pb0 lb0 R0 bs t m pb lb R z : regs_at m0 pb0 lb0 R0 -> (bs < length m0)%nat ->
+  inv m0 pb0 bs t m pb lb R -> inv m0 pb0 bs t (upd m (length m0) [VInt z]) pb lb R.
+Proof.
+  intros H0 Hbs I. destruct I as [Ir If [v Ik] Iu Ia Iau].
+  assert (Hk0 : (length m0 < length m)%nat) by (apply nth_error_Some; congruence).
+  pose proof (ra_glob _ _ _ _ H0) as Hg.
+  constructor.
+  - apply regs_at_scratch; [exact Ir|lia|exact Iu].
+  - apply (fr_trans _ m0 pb0 lb0 R0 m pb lb R); [exact H0|exact Ir|lia|exact If|]. apply fr_scratch; assumption.
+  - exists (VInt z). apply mem_upd_same. exact Hk0.
+  - exact Iu.
+  - unfold str_at. rewrite mem_upd_other by lia. exact Ia.
+  - exact Iau.
+Qed.
+
+Lemma inv_putraw m0 pb0 lb0 R0 bs t m pb lb R c (s : bytes) ln : regs_at m0 pb0 lb0 R0 -> (bs < length m0)%nat ->
+  bs <> G_reg__bufs -> bs <> G_lnmode ->
+  inv m0 pb0 bs t m pb lb R -> 0 <= c < 256 -> nonul s -> int_ok ln -> str_fits (pre_of R c ++ s) ->
+  inv m0 pb0 bs t (putraw_mem m pb lb (Z.to_nat (lowz c)) (pre_of R c ++ s) ln)
+      (upd pb (Z.to_nat (lowz c)) (VPtr (length m) 0)) (upd lb (Z.to_nat (lowz c)) ln)
+      (RegDefs.reg_putraw R (Z.to_N c) s (negb (ln =? 0))).
+Proof.
+  intros H0 Hbs Nb1 Nb2 I Hc Hs Hln Hfit. destruct I as [Ir If [v Ik] Iu Ia Iau].
+  pose proof (lowz_range c Hc) as Hlc. set (lc := Z.to_nat (lowz c)) in *. assert (Hlc' : (lc < 256)%nat) by (unfold lc; lia).
+  assert (Hk0 : (length m0 < length m)%nat) by (apply nth_error_Some; congruence).
+  pose proof (ra_glob _ _ _ _ H0) as Hg. pose proof (ra_blen _ _ _ _ Ir) as Hbl.
+  destruct globals_small as (G0 & G1 & G2 & G3 & G4 & G5).
+  destruct (putraw_mem_blocks m pb lb R lc (pre_of R c ++ s) ln Ir Hlc') as (B1 & B2 & B3 & B4 & B5 & B6).
+  assert (Hbsm : (bs < length m)%nat) by lia.
+  constructor.
+  - apply putraw_mem_rep; assumption.
+  - apply (fr_trans _ m0 pb0 lb0 R0 m pb lb R); [exact H0|exact Ir|lia|exact If|]. apply (fr_putraw _ m pb lb R); assumption.
+  - exists v. rewrite B6; [exact Ik|lia|lia|lia|]. intro o. apply Iu. exact Hlc'.
+  - intros k o Hk. rewrite cellp_upd by lia. destruct (Nat.eqb_spec k lc); [intro X; injection X as X; lia|apply Iu; exact Hk].
+  - unfold str_at. rewrite B6; [exact Ia|exact Hbsm|exact Nb1|exact Nb2|]. intro o. apply Iau. exact Hlc'.
+  - intros k o Hk. rewrite cellp_upd by lia. destruct (Nat.eqb_spec k lc); [intro X; injection X as X; lia|apply Iau; exact Hk].
+Qed.
+
+(* ------------------------------------------------------------------ reg_put: the shift loop *)
+Definition put_loop : stmt :=
+  match fn_body cf_reg_put with SSeq _ (SSeq (SIf _ (SSeq (SSeq _ l) _) _) _) => l | _ => SSkip end.
+Definition put_body : stmt := match put_loop with SFor _ _ b => b | _ => SSkip end.
+(* the model's loop, counted as the C loop counts: i, i-1, .., 1 *)
+Fixpoint rot_n (i : nat) (R : RegDefs.regs) : RegDefs.regs :=
+  match i with O => R | S j => rot_n j (RegDefs.rot_step R (N.of_nat (48 + S j))) end.
+Lemma rotate_rot_n R : RegDefs.rotate R = rot_n 8 R.
+Proof. reflexivity. Qed.
+
+Lemma not_upper c : c < 65 -> ct_isupper c = false.
+Proof. intro H. unfold ct_isupper. destruct (Z.leb_spec 65 c); [lia|reflexivity]. Qed.
+
+Lemma put_body_ok m0 pb0 lb0 R0 bs t c sp ln d fuel f : regs_at m0 pb0 lb0 R0 -> (bs < length m0)%nat ->
+  bs <> G_reg__bufs -> bs <> G_lnmode ->
+  forall i m pb lb R v5, 1 <= i <= 8 -> inv m0 pb0 bs t m pb lb R ->
+  exists m' pb' lb' v5',
+    exec (callf cprog fuel (S (S d))) f put_body (mkst [VInt c; sp; VInt ln; VInt i; VPtr (length m0) 0; v5] m)
+    = ONormal (mkst [VInt c; sp; VInt ln; VInt i; VPtr (length m0) 0; v5'] m') /\
+    inv m0 pb0 bs t m' pb' lb' (RegDefs.rot_step R (Z.to_N (48 + i))).
+Proof.
+  intros H0 Hbs Nb1 Nb2 i m pb lb R v5 Hi I.
+  pose proof (iv_rep _ _ _ _ _ _ _ _ I) as Ir. destruct (iv_k0 _ _ _ _ _ _ _ _ I) as [v Ik].
+  assert (Hk0 : (length m0 < length m)%nat) by (apply nth_error_Some; congruence).
+  destruct globals_small as (G0 & G1 & G2 & G3 & G4 & G5). pose proof (ra_glob _ _ _ _ H0) as Hg.
+  unfold put_body, put_loop. cbn [fn_body cf_reg_put]. xstep.
+  rewrite chk_I32 by lia. xstep.
+  assert (Hp : lnp_ok m (VPtr (length m0) 0)) by (right; exists (length m0), 0, [v]; repeat split; try assumption; cbn; lia).
+  rewrite (tr_reg_get m pb lb R (48 + i) _ d fuel Ir) by (try exact Hp; lia).
+  unfold get_name. destruct (Z.eqb_spec (48 + i) 34); [lia|]. cbn [ln_store]. rewrite Ik. cbn [upd firstn skipn app Z.to_nat].
+  xstep.
+  set (z := nthz lb (48 + i)). set (k := Z.to_nat (48 + i)). assert (Hk : (k < 256)%nat) by (unfold k; lia).
+  pose proof (inv_scratch m0 pb0 lb0 R0 bs t m pb lb R z H0 Hbs I) as I1.
+  set (m1 := upd m (length m0) [VInt z]) in *.
+  pose proof (iv_rep _ _ _ _ _ _ _ _ I1) as Ir1.
+  assert (Hz : int_ok z) by (unfold z, int_ok; apply nthz_ok; exact (ra_ints _ _ _ _ Ir)).
+  assert (EN : N.of_nat k = Z.to_N (48 + i)) by (unfold k; apply Z_nat_N).
+  assert (Eget : RegDefs.reg_get R (Z.to_N (48 + i)) = R (N.of_nat k)).
+  { unfold RegDefs.reg_get. destruct (N.eqb_spec (Z.to_N (48 + i)) 34); [lia|]. rewrite EN. reflexivity. }
+  unfold RegDefs.rot_step. rewrite Eget.
+  pose proof (ra_cell _ _ _ _ Ir1 k Hk) as Hr. replace (Z.of_nat k) with (48 + i) in Hr by (unfold k; lia). fold z in Hr.
+  destruct (R (N.of_nat k)) as [[ti li]|]; cbn [reg_cell] in Hr.
+  - destruct Hr as (b & E & Hh & Hst & Hn & Hf & Hl). rewrite E. xstep.
+    rewrite chk_I32 by lia. xstep. rewrite chk_I32 by lia. xstep.
+    assert (Eld : load m1 (length m0) 0 = Ok (VInt z)).
+    { unfold load, m1. rewrite mem_upd_same by exact Hk0. reflexivity. }
+    rewrite Eld. xstep. rewrite (wrap_int_ok z Hz).
+    assert (Hb1 : b <> G_reg__bufs /\ b <> G_lnmode) by (unfold heap_blk in Hh; lia).
+    assert (Epre : pre_of R (48 + i + 1) = []) by (unfold pre_of; rewrite not_upper by lia; reflexivity).
+    change (VPtr b 0) with (VPtr b (Z.of_nat 0)).
+    rewrite (tr_reg_putraw m1 pb lb R (48 + i + 1) b ti 0 z (S d) fuel Ir1) by
+      (try assumption; try lia; try (apply Hb1); rewrite Epre; exact Hf).
+    xstep. cbn [skipn].
+    eexists _, _, _, _. split; [reflexivity|].
+    replace (Z.to_N (48 + i) + 1)%N with (Z.to_N (48 + i + 1)) by lia. rewrite Hl.
+    apply (inv_putraw m0 pb0 lb0 R0 bs t m1 pb lb R (48 + i + 1) ti z); try assumption; try lia.
+    rewrite Epre. exact Hf.
+  - rewrite Hr. xstep. eexists _, _, _, _. split; [reflexivity|exact I1].
+Qed.
+
+Definition put_cond : expr := match put_loop with SFor (Some c) _ _ => c | _ => EConst 0 end.
+Definition put_step : expr := match put_loop with SFor _ (Some s) _ => s | _ => EConst 0 end.
+Lemma put_loop_eq : put_loop = SFor (Some put_cond) (Some put_step) put_body.
+Proof. reflexivity. Qed.
+
+Lemma put_loop_ok m0 pb0 lb0 R0 bs t c sp ln d fuel : regs_at m0 pb0 lb0 R0 -> (bs < length m0)%nat ->
+  bs <> G_reg__bufs -> bs <> G_lnmode ->
+  forall i, (i <= 8)%nat -> forall f m pb lb R v5, (i < f)%nat -> inv m0 pb0 bs t m pb lb R ->
+  exists m' pb' lb' v5',
+    exec (callf cprog fuel (S (S d))) f put_loop (mkst [VInt c; sp; VInt ln; VInt (Z.of_nat i); VPtr (length m0) 0; v5] m)
+    = ONormal (mkst [VInt c; sp; VInt ln; VInt 0; VPtr (length m0) 0; v5'] m') /\
+    inv m0 pb0 bs t m' pb' lb' (rot_n i R).
+Proof.
+  intros H0 Hbs Nb1 Nb2. induction i as [|j IH]; intros Hi f m pb lb R v5 Hf I.
+  - destruct f as [|f]; [lia|]. rewrite put_loop_eq, exec_for. unfold put_cond, put_loop. cbn [fn_body cf_reg_put]. xstep.
+    eexists _, _, _, _. split; [reflexivity|exact I].
+  - destruct f as [|f]; [lia|]. rewrite put_loop_eq, exec_for. unfold put_cond at 1, put_loop at 1. cbn [fn_body cf_reg_put]. xstep.
+    destruct (Z.ltb_spec 0 (Z.of_nat (S j))); [|lia]. xstep.
+    destruct (put_body_ok m0 pb0 lb0 R0 bs t c sp ln d fuel (S f) H0 Hbs Nb1 Nb2 (Z.of_nat (S j)) m pb lb R v5 ltac:(lia) I)
+      as (m1 & pb1 & lb1 & v51 & E & I1).
+    rewrite E. unfold put_step at 1, put_loop at 1. cbn [fn_body cf_reg_put]. xstep.
+    rewrite chk_I32 by lia. xstep. replace (Z.of_nat (S j) + -1) with (Z.of_nat j) by lia.
+    rewrite <- put_loop_eq.
+    destruct (IH ltac:(lia) f m1 pb1 lb1 _ v51 ltac:(lia) I1) as (m2 & pb2 & lb2 & v52 & E2 & I2).
+    rewrite E2. eexists _, _, _, _. split; [reflexivity|].
+    cbn [rot_n]. replace (N.of_nat (48 + S j)) with (Z.to_N (48 + Z.of_nat (S j))) by lia. exact I2.
+Qed.
